@@ -108,7 +108,8 @@ impl Tr {
         // charge the extra roundings
         let extra = match f {
             // repeated squaring doubles the accumulated relative error at every step: ~|n| u / 2
-            Func::Powi(n) => 2.0 + (n.unsigned_abs().max(1) as f64).log2() + n.unsigned_abs() as f64 / 8.0,
+            // (powers of +-1 are exact)
+            Func::Powi(n) => 2.0 + (n.unsigned_abs().max(1) as f64).log2() + if self.re().abs() == 1.0 { 0.0 } else { n.unsigned_abs() as f64 / 8.0 },
             Func::Powf(_) => 2.0,
             _ => 1.0,
         };
